@@ -27,7 +27,7 @@ ASSUMPTIONS = [
 ]
 OBLIGATIONS = {"m=1": 20, "m=2": 20, "ties": 20, "all-below": 20, "all-above": 20,
                "constant-ens": 20, "nan-obs": 20, "float": 20, "n=1": 10,
-               "long-record": 1, "n==m": 10, "members-sorted": 30,
+               "long-record": 1, "size-edge": 2, "n==m": 10, "members-sorted": 30,
                "members-reverse-sorted": 30, "forecasts-sorted-by-obs": 30}
 
 
@@ -350,7 +350,7 @@ def run_case(ctx, case, rng=None):
     ctx.api("crps", 5 + (nanmask is not None))
 
 
-def run_long_record(ctx, n, m, seed):
+def run_long_record(ctx, n, m, seed, extra_nan=0):
     """one long record (the pairwise uncertainty term is O(n^2)): definition,
     identities and the climatological uncertainty for tens of thousands of
     forecasts"""
@@ -361,12 +361,22 @@ def run_long_record(ctx, n, m, seed):
     ctx.evaluated()
     ctx.tag("long-record")
     ctx.api("crps")
-    d, _ = decomp(crps(y, x))
+    if extra_nan:
+        # n forecasts of which extra_nan have no observation: n - extra_nan valid ones
+        yin = y.copy()
+        drop = r.choice(n, size=extra_nan, replace=False)
+        yin[drop] = np.nan
+        keep = np.ones(n, dtype=bool)
+        keep[drop] = False
+        d, _ = decomp(crps(yin, x))
+        y, x = y[keep], x[keep]
+    else:
+        d, _ = decomp(crps(y, x))
     c, rel, res, unc, pot = d
     ref = float(crps_exact_lattice_fast(np.round(y * 4).astype(np.int64),
                                         np.round(x * 4).astype(np.int64), 4))
     uref = uncertainty_ref(y)
-    case = {"kind": "long", "n": n, "m": m, "seed": seed}
+    case = {"kind": "long", "n": n, "m": m, "seed": seed, "extra_nan": extra_nan}
     ctx.check("crps.definition", abs(c - ref) <= 1e-9 * abs(ref), "crps|definition|long",
               case, {"crps": c, "definition": ref})
     ctx.check("crps.uncertainty-climatology", abs(unc - uref) <= 1e-9 * abs(uref)
@@ -379,6 +389,18 @@ def run_long_record(ctx, n, m, seed):
 
 
 def run(ctx):
+    # record lengths around powers of two and round numbers (where an implementation
+    # may switch algorithm or buffer), also with some observations missing so that
+    # the number of *valid* forecasts lands on such lengths
+    from hyverif.core import size_edges
+    sizes = [n for n in size_edges(17, 10001 if ctx.tier == "quick" else 70001)]
+    for j, n in enumerate(sizes):
+        if j % ctx.nshards != ctx.shard:
+            continue
+        ctx.tag("size-edge")
+        run_long_record(ctx, n, 1 + (j + ctx.seed) % 3, ctx.seed + n)
+        if n <= 10001:
+            run_long_record(ctx, n + 4, 2, ctx.seed + n + 1, extra_nan=4)
     if ctx.shard == 0:
         run_long_record(ctx, 46500, 2, ctx.seed)
     if ctx.shard == 1 and ctx.tier == "thorough":
@@ -400,6 +422,7 @@ def run(ctx):
 
 def replay(ctx, case):
     if case.get("kind") == "long":
-        run_long_record(ctx, int(case["n"]), int(case["m"]), int(case["seed"]))
+        run_long_record(ctx, int(case["n"]), int(case["m"]), int(case["seed"]),
+                        int(case.get("extra_nan", 0)))
     else:
         run_case(ctx, case)
